@@ -90,14 +90,17 @@ fn in_cat(c: char, k: Cat) -> bool {
     let g = match cat_of(c) {
         Some(g) => g,
         None => {
-            // characters outside the alphabet only reach the matcher through known-finding replays;
-            // ASCII fallbacks keep it total
-            if c.is_ascii_lowercase() {
+            // characters outside the alphabet reach the matcher as parts of document strings (words of other
+            // scripts) and through replays: letters by the case properties of `char`, ASCII digits
+            if c.is_lowercase() {
                 "Ll"
-            } else if c.is_ascii_uppercase() {
+            } else if c.is_uppercase() {
                 "Lu"
             } else if c.is_ascii_digit() {
                 "Nd"
+            } else if c.is_alphabetic() {
+                // letters without case (CJK, Hebrew, Arabic ...)
+                "Lo"
             } else {
                 "Xx"
             }
